@@ -115,6 +115,10 @@ func buildSpecs() {
 	fn("Sum", "variadic", Sum)
 	fn("Join", "variadic-after-fixed", Join)
 	fn("CtxEcho", "context-taking", CtxEcho).Ctx = true
+	fn("CtxPair", "context-taking-interface-param", CtxPair).Ctx = true
+	fn("CtxLast", "context-taking-interface-param", CtxLast).Ctx = true
+	fn("CtxVar", "context-taking-variadic", CtxVar).Ctx = true
+	fn("CtxPtr", "context-taking-nilable-params", CtxPtr).Ctx = true
 	fn("Half", "error-returning", Half)
 	fn("Fail", "error-returning", Fail).Over = map[int][]interface{}{0: messages}
 	fn("FailCustom", "error-returning-custom-type", FailCustom).Over = map[int][]interface{}{0: codes}
